@@ -174,13 +174,16 @@ impl Ctx {
             .ok()
             .and_then(|s| s.parse().ok())
             .unwrap_or(0);
-        let budget_s: u64 = std::env::var("VERIF_BUDGET_S")
+        // the supervisor hands every worker the same absolute deadline
+        let now_ms = std::time::SystemTime::now()
+            .duration_since(std::time::UNIX_EPOCH)
+            .map(|d| d.as_millis() as u64)
+            .unwrap_or(0);
+        let budget_ms: u64 = std::env::var("YV_DEADLINE_MS")
             .ok()
-            .and_then(|s| s.parse().ok())
-            .unwrap_or(match tier {
-                Tier::Quick => 40,
-                Tier::Thorough => 1500,
-            });
+            .and_then(|s| s.parse::<u64>().ok())
+            .map(|d| d.saturating_sub(now_ms))
+            .unwrap_or(3_600_000);
         Ctx {
             prop,
             tier,
@@ -198,7 +201,7 @@ impl Ctx {
             poison: HashSet::new(),
             execs: 0,
             start: Instant::now(),
-            budget: Duration::from_secs(budget_s),
+            budget: Duration::from_millis(budget_ms),
             capped: false,
             machinery_errors: Vec::new(),
         }
@@ -247,7 +250,7 @@ impl Ctx {
         if self.capped {
             return true;
         }
-        if self.execs % 64 == 0 && self.start.elapsed() > self.budget {
+        if (self.execs % 64 == 0 || self.budget.is_zero()) && self.start.elapsed() >= self.budget {
             self.capped = true;
         }
         self.capped
@@ -478,6 +481,18 @@ pub fn supervise(prop: &PropDef, tier: Tier) -> i32 {
     let _ = std::fs::remove_dir_all(&dir);
     std::fs::create_dir_all(&dir).unwrap();
     let max_jobs = jobs();
+    let budget_s: u64 = std::env::var("VERIF_BUDGET_S")
+        .ok()
+        .and_then(|s| s.parse().ok())
+        .unwrap_or(match tier {
+            Tier::Quick => 40,
+            Tier::Thorough => 1200,
+        });
+    let deadline_ms = std::time::SystemTime::now()
+        .duration_since(std::time::UNIX_EPOCH)
+        .map(|d| d.as_millis() as u64)
+        .unwrap_or(0)
+        + budget_s * 1000;
     let mut queue: Vec<(usize, usize)> = (0..nshards).rev().map(|s| (s, 0)).collect();
     let mut running: Vec<Running> = Vec::new();
     let mut abort_viol: Vec<Violation> = Vec::new();
@@ -492,6 +507,7 @@ pub fn supervise(prop: &PropDef, tier: Tier) -> i32 {
             .arg(shard.to_string())
             .arg(nshards.to_string())
             .arg(&dir)
+            .env("YV_DEADLINE_MS", deadline_ms.to_string())
             .stdin(Stdio::null())
             .stdout(Stdio::null())
             .stderr(Stdio::from(stderr))
